@@ -432,6 +432,7 @@ struct Worker {
     sender: Sender<Option<String>>,
     receiver: Receiver<Option<String>>,
     stopped: AtomicBool,
+    stop_requested: AtomicBool,
     stats: WorkerStats,
 }
 
@@ -446,6 +447,7 @@ impl Worker {
             sender: tx,
             receiver: rx,
             stopped: AtomicBool::new(false),
+            stop_requested: AtomicBool::new(false),
             stats: WorkerStats::new(),
         }
     }
@@ -468,12 +470,20 @@ impl Worker {
     }
 
     fn run(&self) {
-        for opt in self.receiver.iter() {
-            if let Some(v) = opt {
-                self.stats.incr_drained();
-                (self.task)(v);
-            } else {
+        loop {
+            // A stop may have been requested while the queue was full, in which
+            // case no poison pill could be enqueued: finish as soon as everything
+            // that was accepted has been drained.
+            if self.stop_requested.load(Ordering::Acquire) && self.receiver.is_empty() {
                 break;
+            }
+
+            match self.receiver.recv() {
+                Ok(Some(v)) => {
+                    self.stats.incr_drained();
+                    (self.task)(v);
+                }
+                Ok(None) | Err(_) => break,
             }
         }
 
@@ -484,7 +494,10 @@ impl Worker {
     }
 
     fn stop(&self) {
-        // Send a `None` poison pill value to stop the run loop.
+        // Record the request first: if the queue is full the poison pill below
+        // is rejected and the run loop relies on this flag instead.
+        self.stop_requested.store(true, Ordering::Release);
+        // Send a `None` poison pill value to wake up and stop the run loop.
         let _ = self.sender.try_send(None);
     }
 
